@@ -119,6 +119,44 @@ def conv_tok(cv):
     return ("i" if isinstance(cv, IntegerConvertor) else "t") + f" {f2b(mn)} {f2b(sc)}"
 
 
+def conv_tok_fit(cv):
+    """the fitted part of a convertor (no safe values): what the model's `rawforest` reports"""
+    from syndiffix.microdata import StringConvertor
+    if isinstance(cv, StringConvertor):
+        return f"s {len(cv.value_map)} " + " ".join(x.encode().hex() or "-" for x in cv.value_map)
+    return conv_tok(cv)
+
+
+def raw_lines(t, F, kind):
+    """the typed table as the user hands it to Synthesizer (cells by dtype), for the model's `rawforest`: convertor fitting and normalisation happen in the model.
+    None if a timestamp is not a whole number of seconds (outside the modelled encoding)."""
+    from syndiffix.microdata import TIMESTAMP_REFERENCE
+    ap, bp = t["ap"], t["bp"]; lc = ap.low_count_params; df = t["df"]
+    npid = F.pid_data.shape[1]
+    hdr = (f"rawforest {len(df)} {len(df.columns)} {npid} {AS.kind_tok(kind)} {AS.salt_hex(ap.salt)} {lc.low_threshold} {f2b(lc.layer_sd)} {f2b(lc.low_mean_gap)} "
+           f"{ap.outlier_count.lower} {ap.outlier_count.upper} {ap.top_count.lower} {ap.top_count.upper} {f2b(ap.layer_noise_sd)} "
+           f"{bp.singularity_low_threshold} {bp.range_low_threshold} {bp.precision_limit_row_fraction} {bp.precision_limit_depth_threshold}")
+    kt = {"bool": "b", "int": "i", "float": "r", "ts": "t", "str": "s"}
+    lines = [hdr, "names " + " ".join(str(c).encode().hex() or "-" for c in df.columns), "kinds " + " ".join(kt[k] for k in t["kinds"])]
+    cols = []
+    for c, k in zip(df.columns, t["kinds"]):
+        col = []
+        for v in df[c]:
+            if k == "bool": col.append("1" if v else "0")
+            elif k == "int": col.append(str(int(v)))
+            elif pd.isna(v): col.append("n")
+            elif k == "float": col.append(f2b(float(v)))
+            elif k == "ts":
+                sec = (v - TIMESTAMP_REFERENCE) / pd.Timedelta(1, "s")
+                if sec != int(sec): return None
+                col.append(str(int(sec)))
+            else: col.append(str(v).encode().hex() or "-")
+        cols.append(col)
+    for i in range(len(df)):
+        lines.append(" ".join([c[i] for c in cols] + [str(int(x)) for x in F.pid_data[i]]))
+    return lines
+
+
 def cell_tok(v):
     val, fl = v
     if val is None: return f"N:{f2b(fl)}"
@@ -192,7 +230,7 @@ def stream_micro(ctx, built, ntables, oracle=None, max_rows=120, name="S-micro")
     return S
 
 
-def stream_sample1(ctx, built, ntables, max_rows=100, name="S-sample1"):
+def stream_sample1(ctx, built, ntables, max_rows=100, name="S-sample1", raw=False):
     """the composed model (forest -> tree of all columns -> harvest -> safe values -> microdata) against the rows the real
     Synthesizer(..., SingleClustering()).sample() generates, cell for cell; both unsafe RNGs recorded from the real run."""
     import syndiffix.synthesizer as SY
@@ -244,7 +282,23 @@ def stream_sample1(ctx, built, ntables, max_rows=100, name="S-sample1"):
         S.count((repr(t["df"].values.tolist()), repr(t["pids"].values.tolist()) if t["pids"] is not None else None, repr(t["ap"]), repr(t["bp"])),
                 len(rows) >= 2 and nonsing, {"table": typed_summary(t), "rows": len(rows), "buckets": len(cap["buckets"]), "harvest_draws": len(hstream)},
                 tag="/".join(t["kinds"]))
-        if built:
+        if built and raw:
+            # the model gets the typed table itself: it fits the convertors, normalises the columns, builds the forest and samples
+            rl = raw_lines(t, F, kind)
+            if rl is None:
+                continue
+            req_raw = "sample1 " + " ".join(map(str, comb)) + " | = | " + " ".join(map(str, hstream)) + " | " + " ".join(mtoks)
+            got = TS.split_replies(drive(rl + [req_raw], timeout=900))
+            exp_convs = "convs " + " ; ".join(conv_tok_fit(c) for c in syn.column_convertors)
+            gc = got[1][0] if len(got) > 1 and got[1] else "<missing>"
+            if gc != exp_convs:
+                S.mismatch({"table": typed_summary(t), "what": "fitted convertors (scaler min_/scale_, round precision, value map)"}, gc[:300], exp_convs[:300], "(convertors)")
+            g = got[-1] if got else ["<no reply>"]
+            if exp != g:
+                k = next((i for i, (a, b) in enumerate(zip(exp, g)) if a != b), min(len(exp), len(g)))
+                S.mismatch({"table": typed_summary(t), "rows": len(rows)}, g[k] if k < len(g) else "<missing>", exp[k] if k < len(exp) else "<missing>",
+                           f"(row {k} of {len(exp)}/{len(g)})")
+        elif built:
             got = TS.split_replies(drive(TS.forest_lines(ft, F, kind) + [req], timeout=900))
             g = got[-1] if got else ["<no reply>"]
             if exp != g:
